@@ -806,6 +806,18 @@ func (s *c13state) method(M *ssa.Function, isObf bool) {
 		arg := hc.Call.Args[0]
 		al := e.locOfSlice(arg)
 		if al.root.kind != "field" || al.root.v != ssa.Value(recv) {
+			// a fixed-capacity local array cannot hold PSK‖salt for every key
+			// length the constructor admits (it only enforces a minimum): the
+			// hash input is clipped for long keys – spec violation, not an
+			// unrecognised shape
+			if al.root.kind == "alloc" {
+				if a, ok := al.root.v.(*ssa.Alloc); ok {
+					if arr, ok := a.Type().(*types.Pointer).Elem().Underlying().(*types.Array); ok {
+						c.Bad(key+":fixed-capacity", c13r1, p.InstrPos(hc), fmt.Sprintf("the hash input is built in a fixed %d-byte local array while the key length is only bounded from below: PSK‖salt longer than %d bytes is truncated, so the key is no longer BLAKE2b-256(PSK‖salt)", arr.Len(), arr.Len()))
+						continue
+					}
+				}
+			}
 			c.Undecided(key, c13r1, p.InstrPos(hc), "the hash input is not a buffer field of the obfuscator (shape not recognised: "+al.root.kind+")")
 			continue
 		}
